@@ -5,5 +5,6 @@ P="$1"; ID="$2"; T="${3:-quick}"
 git -C /repo apply "$P" || { echo "PATCH DOES NOT APPLY"; exit 3; }
 /verif/check.sh "$ID" "$T"; rc=$?
 git -C /repo checkout -- . ; git -C /repo clean -fdq
+/verif/build.sh "$ID" >/dev/null 2>&1
 echo "check exit=$rc"
 exit $rc
